@@ -119,7 +119,7 @@ def view(case):
 
 def campaigns(tier: str) -> List[Campaign]:
     return [Campaign("launch_stats", c15_case(), check, quick=480, thorough=24000, quick_shards=8,
-                     required_classes={"clipped_delay": 0.2, "positive_delay": 0.2, "memory_launch": 0.2,
+                     required_classes={"unrounded_fractional_times": 0.05, "clipped_delay": 0.2, "positive_delay": 0.2, "memory_launch": 0.2,
                                        "linked_non_launch_call": 0.1, "without_memory": 0.1, "mtia_launch": 0.05,
                                        "multi_rank_request_same_correlation_ids": 0.015, "trimmed_by_last_profiler_step": 0.15},
                      sample_view=view)]
